@@ -21,6 +21,18 @@
 //     (generated xar, handmade jar, VSIX with copied parts): every byte of every
 //     copy is flipped, so a check keyed by content instead of location shows.
 //
+//  5. structures the verifier selects among (applealt.go): a code byte changed
+//     and an extra Apple CodeDirectory that no signed attribute names, of every
+//     hash type below / equal to / above the signed one, in the alternate slots,
+//     as a second slot-0 entry or in slot 0 itself, describing the changed code.
+//  6. unprotected parts must not turn a rejection into an acceptance
+//     (tsgraft.go): every CMS-carrying format signed under a certificate that is
+//     outside its validity period today is rejected as signed, and stays
+//     rejected for every time-stamp (RFC 3161 token under either attribute type,
+//     PKCS#9 counter-signature + certificates in the bag) by a self-made
+//     authority at times inside and outside the validity period, by the trusted
+//     fixture authority at times outside, and for pairs of both.
+//
 // Oracle: relicx.Verify(path, TrustOpts()) - integrity on, chain check against
 // the fixture root - must not return success for a protected mutation. Any
 // error (including "not signed") is fine; a panic or a dead verification child
@@ -571,7 +583,7 @@ func runSemantic(env *Env, arts []*Artifact, workers int) {
 				}
 				tallyMu.Unlock()
 				if sm.Assert && strings.HasPrefix(res.Outcome, "accepted") {
-					if r0 := w.verify(env, a, a.Signed, nil); r0.Outcome != "accepted" {
+					if r0 := w.verify(env, a, a.Signed, nil); r0.Outcome != "accepted" && !a.ExpectRejected {
 						harnessFatal("self-check: the unmodified %s stopped verifying (%s %s)", a.ID(), r0.Outcome, r0.Err)
 					}
 					key := a.Fmt + ":" + sm.Class + "-accepted"
@@ -662,6 +674,7 @@ func main() {
 	defer cleanup()
 	env := &Env{cfg: relicx.BaseConfig("file"), toks: map[string]token.Token{}, tmp: tmp, trust: relicx.TrustOpts()}
 	relicx.Use(env.cfg)
+	addOutOfValidityKeys(env)
 
 	for i, arg := range os.Args {
 		if arg == "--replay" && i+1 < len(os.Args) {
@@ -718,12 +731,65 @@ func main() {
 			arts = append(arts, as...)
 		}
 	}
+	// artifacts signed under a certificate that is outside its validity period
+	// today: they must not verify, whatever is grafted into their unprotected
+	// parts (tsgraft.go). Only those mutations are run on them.
+	var rarts []*Artifact
+	for _, key := range []string{"rsaAexpired", "rsaAfuture"} {
+		for _, b := range builders {
+			if !graftFormats[b.name] || (len(only) > 0 && !only[b.name]) {
+				continue
+			}
+			v := Variant{key, crypto.SHA256, "sha256"}
+			if b.name == "msi" {
+				v.Key += "big" // see outOfValidity
+			}
+			as, err := b.fn(env, v)
+			if err != nil {
+				skipped = append(skipped, fmt.Sprintf("%s %s: not built: %v", b.name, v, err))
+				continue
+			}
+			for _, a := range as {
+				a.ExpectRejected = true
+				var keep []SemMut
+				for _, sm := range a.Semantic {
+					if sm.Class == "graft-timestamp" {
+						keep = append(keep, sm)
+					}
+				}
+				a.Semantic = keep
+				if len(keep) > 0 {
+					rarts = append(rarts, a)
+				}
+			}
+		}
+	}
 	workers := runtime.NumCPU()
 	if workers > 16 {
 		workers = 16
 	}
 	// self-check: the unmodified artifacts (and siblings) verify
 	w0 := newWorker(env, 99)
+	{
+		var keep []*Artifact
+		for _, a := range rarts {
+			res := w0.verify(env, a, a.Signed, nil)
+			run.Eval(1)
+			run.Distinct(a.ID() + "|as-signed")
+			if strings.HasPrefix(res.Outcome, "accepted") {
+				run.Outcome(a.Fmt + ":out-of-validity-signer:as-signed:" + res.Outcome)
+				violation(a.Fmt+":out-of-validity-signer-accepted", fmt.Sprintf("%s: signed under %s, which is not valid today, no time-stamp: verifies with chain checking (%s)", a.ID(), outOfValidity[strings.TrimSuffix(a.Variant, "-sha256")], res.Outcome), mkReplay(a, "none", "", "", res.Outcome, a.Signed, nil))
+				continue
+			}
+			why := "other-error"
+			if strings.Contains(res.Err, "expired") || strings.Contains(res.Err, "not yet valid") {
+				why = "certificate-validity"
+			}
+			run.Outcome(a.Fmt + ":out-of-validity-signer:as-signed:" + res.Outcome + ":" + why)
+			keep = append(keep, a)
+		}
+		rarts = keep
+	}
 	for _, a := range arts {
 		if res := w0.verify(env, a, a.Signed, nil); res.Outcome != "accepted" {
 			cleanup()
@@ -795,6 +861,9 @@ func main() {
 		}
 		artInfo[a.ID()] = info
 	}
+	for _, a := range rarts {
+		artInfo[a.ID()] = map[string]any{"size": len(a.Signed), "as_signed": "must be rejected (signer certificate not valid today)", "semantic_mutations": len(a.Semantic)}
+	}
 	if run.Thorough() {
 		timeBudget = 45 * time.Minute
 	}
@@ -803,7 +872,7 @@ func main() {
 		run.Capped(fmt.Sprintf("time cap of %v reached: %d enumerated offsets (x2 masks) were not executed", timeBudget, skippedOffsets))
 	}
 	flipSecs := time.Since(start).Seconds() - buildSecs
-	runSemantic(env, arts, workers)
+	runSemantic(env, append(append([]*Artifact{}, arts...), rarts...), workers)
 	if len(only) == 0 || only["cmdline"] {
 		cmdlinePhase(env, arts)
 	}
@@ -843,10 +912,11 @@ func main() {
 		"flip_alphabet": "xor 0x01, xor 0x80 at every enumerated offset",
 		"formats":       len(builders),
 	})
-	run.Rule("a case is one mutated file verified by relic; non-trivial = the mutation hits a byte the independent reader classes as protected (flips), or is an asserted semantic mutation; keyed by artifact, offset and mask / mutation class and site; command line: for one artifact per format that needs no side file, the real `relic verify` binary on every sequence of <=3 files over {good copy, tampered copy (first covered byte, one bit)}: exit status non-zero exactly when a tampered file is present, every good file reported OK; XML signature wrapping (vsix): one referenced part modified + an unsigned look-alike of one link of the chain SignedInfo -> SignedInfo/Reference -> Object(by Id) -> Manifest -> Manifest/Reference, re-pointed at the modified part: Manifest/Reference {before, after, first, last in Manifest}, Manifest {before, after}, Object {every gap between Signature's children} x Id {same, absent, other} and wrapped around the signed Object {Id absent, other} x {signed first, last}, for every referenced part; SignedInfo/Reference {before, after} x every subset of its children and SignedInfo {every gap between Signature's children} x every subset of its children x every subset of its Reference's children, each x Object' {replaced in place, shadow before, shadow after}, for the first referenced payload part; all asserted (SignedInfo and SignatureValue are never touched, the part differs from what was signed); duplicate content: a generated xar with 3 groups of members whose archived bytes are identical at separate heap extents (stored / zlib, adjacent / not, same / other checksum style), the handmade jar with a second copy of a stored and of a deflated member, the VSIX fixture with a second copy of two parts - every byte of every copy flipped")
+	run.Rule("a case is one mutated file verified by relic; non-trivial = the mutation hits a byte the independent reader classes as protected (flips), or is an asserted semantic mutation; keyed by artifact, offset and mask / mutation class and site; command line: for one artifact per format that needs no side file, the real `relic verify` binary on every sequence of <=3 files over {good copy, tampered copy (first covered byte, one bit)}: exit status non-zero exactly when a tampered file is present, every good file reported OK; XML signature wrapping (vsix): one referenced part modified + an unsigned look-alike of one link of the chain SignedInfo -> SignedInfo/Reference -> Object(by Id) -> Manifest -> Manifest/Reference, re-pointed at the modified part: Manifest/Reference {before, after, first, last in Manifest}, Manifest {before, after}, Object {every gap between Signature's children} x Id {same, absent, other} and wrapped around the signed Object {Id absent, other} x {signed first, last}, for every referenced part; SignedInfo/Reference {before, after} x every subset of its children and SignedInfo {every gap between Signature's children} x every subset of its children x every subset of its Reference's children, each x Object' {replaced in place, shadow before, shadow after}, for the first referenced payload part; all asserted (SignedInfo and SignatureValue are never touched, the part differs from what was signed); duplicate content: a generated xar with 3 groups of members whose archived bytes are identical at separate heap extents (stored / zlib, adjacent / not, same / other checksum style), the handmade jar with a second copy of a stored and of a deflated member, the VSIX fixture with a second copy of two parts - every byte of every copy flipped; unsigned alternative (macho, dmg): one code byte changed {middle, last hashed byte} + an extra CodeDirectory written by the harness that describes the changed code and that no signed attribute names: hash type {1 SHA-1, 2 SHA-256, 3 SHA-256 truncated, 4 SHA-384, 5 SHA-512} x shape {all pages + special slots re-hashed, all pages without special slots, code limit cut to the first page} x placement {alternate slot 0x1000, 0x1005 (thorough: all six), second index entry of type 0 before / after the genuine one, slot 0 with the genuine directory moved to 0x1000}, SuperBlob re-laid, LC_CODE_SIGNATURE/__LINKEDIT sizes (koly signature length) fixed up before hashing when it outgrows its slot, page hashes re-checked by the harness's reader - all asserted rejected; unprotected parts (pe, msi, cab, cat, ps1, jar, xap, appx, macho, dmg, xar): the artifact signed by relic's pipeline with key rsaA under the expired (2020..2021) and under the not-yet-valid (2044..2046) fixture certificate must be rejected as signed, and for each: authority {self-signed TSA, own root + TSA leaf, TSA leaf naming the trusted intermediate as issuer (own key), trusted fixture TSA} x form {RFC 3161 token as id-aa-timeStampToken, as 1.3.6.1.4.1.311.3.3.1, counterSignature attribute with the authority's certificates added to the bag} x attested time {notBefore+1s, middle, notAfter-1s, notBefore-1s, notAfter+1s, now} grafted into the unsigned attributes (nothing signed is touched), plus the 6 ordered pairs of forms {trusted TSA attesting now, self-signed TSA attesting the middle}: asserted rejected except trusted TSA at the three inside times, which is the control (tallied; accepted on the unchanged tree = the grafts are well-formed)")
 	run.Assume("fixture keys and chain root->inter->leaf; trust pool holds only the fixture root; PGP keyring holds rsaA and rsaB")
 	run.Assume("the digest an attacker would write into an unsigned look-alike SignedInfo is computed by a harness-owned canonicaliser (no prefixed names) that must reproduce the digest the signer wrote for the package Object of the same artifact, else those look-alikes are listed as not constructible")
 	run.Assume("xar members sharing ONE heap extent (coalesced heap) are not enumerated: relic's signer refuses such a package (streaming heap reader)")
+	run.Assume("out-of-validity enumeration: today's date lies outside 2020-01-01..2021-01-01 and 2044-01-01..2046-01-01 (checked at run time); the MSI artifact is signed with a certificate file that carries six unrelated certificates behind the chain, and a graft drops as many of those as it needs to fit the allocated signature stream (the compound file is not re-laid)")
 	run.Assume("classification of bytes is derived from the format specifications by harness-owned readers; bytes not clearly covered are left unclassified and only tallied")
 	for _, a := range arts {
 		if a.Windows != nil {
